@@ -315,9 +315,25 @@ fn one(report: &mut Report, seed: u64, n: u64, root: &str, cli: Option<&str>) {
             }
         }))
     });
+    // second kind of race: somebody touches the SOURCE (its modification time moves an hour ahead, the bytes stay)
+    // while the migration is writing its temporary copy. Giving up is fine - with nothing left at the destination
+    let touch = !precreate && !use_cli && !race && rng.below(6) == 0;
+    let touched = std::sync::Arc::new(std::sync::atomic::AtomicBool::new(false));
+    let toucher = touch.then(|| {
+        let (dir, source, touched) = (dir.clone(), source.clone(), touched.clone());
+        crate::mon::hub().add_racer(std::sync::Arc::new(move |file: feoxdb::verif::FileId| {
+            use std::os::unix::fs::MetadataExt;
+            let mine = std::fs::read_dir(&dir).map(|rd| rd.flatten().any(|e| e.metadata().map(|m| (m.dev(), m.ino()) == file).unwrap_or(false))).unwrap_or(false);
+            if mine && !touched.swap(true, std::sync::atomic::Ordering::SeqCst) {
+                if let Ok(f) = std::fs::OpenOptions::new().write(true).open(&source) {
+                    let _ = f.set_modified(std::time::SystemTime::now() + std::time::Duration::from_secs(3600));
+                }
+            }
+        }))
+    });
     report.evaluations += 1;
     report.count(&format!("source_{}", src.class), 1);
-    let replay = json!({"engine": "migrate", "seed": seed, "source": n, "class": src.class, "allow_legacy": src.allow_legacy, "precreated_destination": precreate, "destination_created_during_migration": race});
+    let replay = json!({"engine": "migrate", "seed": seed, "source": n, "class": src.class, "allow_legacy": src.allow_legacy, "precreated_destination": precreate, "destination_created_during_migration": race, "source_touched_during_migration": touch});
     // expected logical contents from the independent reader
     let expected = indep::scan(&src.image, None, src.allow_legacy).map(|s| (s.version, logical_of_scan(&s)));
     let (ok, err_name, report_counts): (bool, String, Option<(u64, u64, u32, u32, u64, u64)>) = if use_cli {
@@ -348,6 +364,12 @@ fn one(report: &mut Report, seed: u64, n: u64, root: &str, cli: Option<&str>) {
     };
     if let Some(id) = racer {
         crate::mon::hub().remove_racer(id);
+    }
+    if let Some(id) = toucher {
+        crate::mon::hub().remove_racer(id);
+    }
+    if touched.load(std::sync::atomic::Ordering::SeqCst) {
+        report.count("source_touched_during_migration", 1);
     }
     let raced = raced.load(std::sync::atomic::Ordering::SeqCst);
     if raced {
@@ -381,6 +403,8 @@ fn one(report: &mut Report, seed: u64, n: u64, root: &str, cli: Option<&str>) {
             (_, "synth-v3-source") | (_, "synth-v1-key-too-large-for-v3") | (_, "synth-damaged") | (_, "synth-damaged-head") | (_, "synth-damaged-marker") | (_, "synth-journal-over-live-tail") => {}
             (_, "synth-ambiguous-marker") if !src.allow_legacy => {}
             _ if precreate => {}
+            // the source's modification time moved while it was being read: giving up is a legitimate answer
+            _ if touched.load(std::sync::atomic::Ordering::SeqCst) => {}
             (Ok(_), _) => {
                 report.violation("migrate:unexpected-failure", format!("{}: the independent reader can read the source but migration failed with {err_name}", src.class), replay.clone());
             }
